@@ -5,7 +5,7 @@ Case description (JSON, enough for `rerun`):
   desc = {qregs: [["reg"|"loose", size]...], cregs: [size...], loose_clbits: k, items: [item...]}
   item = ["g", name, [[num,den]...], [qubits]] | ["barrier", [qubits], label|null] | ["ubarrier", q, uuid-string]
        | ["measure", q, c] | ["reset", q] | ["move", a, b] | ["cutwire", q]
-       | ["qpd2", basis key, bid|null, label|null, [a, b]] | ["qpd1", basis key, half, bid|null, label|null, q]
+       | ["qpd2", basis key, bid|null, label|null, [a, b]] (+ optional 6th element obj: same obj = same gate INSTANCE) | ["qpd1", basis key, half, bid|null, label|null, q]
   desc["predef"] (optional) = indices of items whose Instruction.definition is read before the call (call history: Qiskit
   caches it; the Coq model is history-independent)
   labels = null | [tagged label ...]          observables = null | [[phase, [letters by qubit index]] ...]
@@ -84,6 +84,7 @@ def make_gate(name, params):
 
 def build(desc):
     qc = QuantumCircuit()
+    objs = {}  # ["qpd2", key, bid, label, [a, b], obj]: items with the same obj are ONE gate instance appended several times
     for i, (kind, size) in enumerate(desc["qregs"]):
         if kind == "loose":
             qc.add_bits([Qubit() for _ in range(size)])
@@ -111,7 +112,12 @@ def build(desc):
         elif k == "cutwire":
             qc.append(CutWire(), [it[1]])
         elif k == "qpd2":
-            qc.append(TwoQubitQPDGate(make_basis(it[1]), basis_id=it[2], label=it[3]), it[4])
+            if len(it) > 5:
+                if it[5] not in objs:
+                    objs[it[5]] = TwoQubitQPDGate(make_basis(it[1]), basis_id=it[2], label=it[3])
+                qc.append(objs[it[5]], it[4])  # append does not copy a parameter-free instruction
+            else:
+                qc.append(TwoQubitQPDGate(make_basis(it[1]), basis_id=it[2], label=it[3]), it[4])
         elif k == "qpd1":
             qc.append(SingleQubitQPDGate(make_basis(it[1]), it[2], basis_id=it[3], label=it[4]), [it[5]])
         else:
@@ -532,14 +538,24 @@ def run_separate(desc, labels):
     return qc, ctx, cin, lab, impl
 
 
-def run_problem(desc, labels, obs):
+def input_labels(qc):
+    """labels of the QPD placeholders of a circuit (what a caller can see of his own gate objects)"""
+    return [[i, None if inst.operation.label is None else str(inst.operation.label)] for i, inst in enumerate(qc.data)
+            if isinstance(inst.operation, (TwoQubitQPDGate, SingleQubitQPDGate))]
+
+
+def run_problem(desc, labels, obs, calls=1, hist=None):
     qc = build(desc)
     ctx = CircCtx()
     cin = ctx.canon_circuit(qc)
     tables = oracle_tables(ctx, qc, cin)
     lab = Labeller(labels)
     pl = None if obs is None else mk_plist(obs)
-    r = call_canon(partition_problem, qc, labels, pl)
+    before = safe(lambda: input_labels(qc), "?")
+    for _ in range(max(1, calls)):  # the same input handed to the function once or several times
+        r = call_canon(partition_problem, qc, labels, pl)
+    if hist is not None:
+        hist["in_labels"] = [before, safe(lambda: input_labels(qc), "?")]
 
     def conv(v):
         so = None
@@ -588,7 +604,8 @@ def generate(rng, tier, outdir):
     _W["w"] = w
     q = tier == "quick"
     N = dict(split=200 if q else 2500, combine=200 if q else 2500, labels=300 if q else 3000, qmap=150 if q else 1500,
-             separate=750 if q else 7000, pcq=300 if q else 3000, cut=250 if q else 2500, problem=900 if q else 8000)
+             separate=750 if q else 7000, pcq=300 if q else 3000, cut=250 if q else 2500, problem=900 if q else 8000,
+             preplaced=400 if q else 4000)
 
     # ---- _split_barriers ----
     for _ in range(N["split"]):
@@ -805,7 +822,8 @@ def generate(rng, tier, outdir):
                 obs = rand_obs(rng, no, od, ol, phases=(mode == "malformed" and bool(rng.integers(0, 2))))
         if try_build(w, desc) is None:
             continue
-        qc, ctx, cin, tables, lab, impl = run_problem(desc, labels, obs)
+        hist = {}
+        qc, ctx, cin, tables, lab, impl = run_problem(desc, labels, obs, 1, hist)
         if impl[0] == "ok":
             so = impl[3]
             if so is None:
@@ -822,7 +840,7 @@ def generate(rng, tier, outdir):
               (coq_tables(tables), n, qc.num_clbits, len(qc.cregs), coq_circ(cin),
                Opt(coq_labels(ls)) if ls is not None else Opt(), cobs, exp),
               json_case("problem", desc, cin, labels=None if labels is None else [tagged(l) for l in labels], obs=obs, impl=impl,
-                        bases=[ctx.canon_basis(b) for b in ctx.bases]),
+                        bases=safe(lambda: [ctx.canon_basis(b) for b in ctx.bases], None), **hist),
               nontrivial=(impl[0] == "ok" and len(impl[2]) > 0))
         w.count("problem.outcome", impl[0])
         w.count("problem.mode", mode)
@@ -833,6 +851,63 @@ def generate(rng, tier, outdir):
             w.count("problem.preplaced_qpd2", any(i["op"][0] == "qpd2" for i in cin))
             w.count("problem.subobs_has_None_key", safe(lambda: bool(impl[3]) and any(k == "none" for k, _ in impl[3]), "?"))
 
+    # ---- partition_problem with nothing left to cut: every partition-crossing gate is a pre-placed TwoQubitQPDGate;
+    #      the same gate INSTANCE may sit at several positions; the same input may be handed over twice ----
+    for it in range(N["preplaced"]):
+        n = int(rng.integers(2, 7))
+        auto = bool(rng.integers(0, 3) == 0)
+        labels = None
+        if not auto:
+            labels = rand_partition(rng, n, bool(rng.integers(0, 4) == 0))
+        desc = rand_desc(rng, n, labels, within=1.0, qpd=False, three=bool(rng.integers(0, 2)))
+        desc.pop("predef", None)
+        if auto:  # keep the components small: no wide barriers
+            desc["items"] = [x for x in desc["items"] if not (x[0] == "barrier" and len(x[1]) > 1) or rng.integers(0, 3) == 0]
+        cand = [q for q in range(n) if labels is None or labels[q] is not None]
+        if len(cand) < 2:
+            continue
+        pool = [[pick(rng, [["cx", []], ["cz", []], ["rzz", [fr(Fraction(1, 2))]]]), pick(rng, [None, None, 0, 2]),
+                 pick(rng, QPD_LABELS)] for _ in range(int(rng.integers(1, 4)))]
+        shared = bool(rng.integers(0, 3) > 0)  # shared: positions may reuse one gate object
+        for _k in range(int(rng.integers(1, 5))):
+            qs = [int(cand[i]) for i in rng.permutation(len(cand))[:2]]
+            j = int(rng.integers(0, len(pool)))
+            item = ["qpd2", pool[j][0], pool[j][1], pool[j][2], qs]
+            if shared:
+                item.append(j)
+            desc["items"].insert(int(rng.integers(0, len(desc["items"]) + 1)), item)
+        q2 = [i for i, x in enumerate(desc["items"]) if x[0] == "qpd2"]
+        if rng.integers(0, 3) == 0:
+            desc["predef"] = [i for i in q2 if rng.integers(0, 2)]
+        obs = rand_obs(rng, n, desc, labels) if rng.integers(0, 3) else None
+        calls = 2 if rng.integers(0, 3) == 0 else 1
+        if try_build(w, desc) is None:
+            continue
+        hist = {}
+        qc, ctx, cin, tables, lab, impl = run_problem(desc, labels, obs, calls, hist)
+        if impl[0] == "ok":
+            so = impl[3]
+            cso = Opt() if so is None else Opt([((4999 if k == "none" else k), [coq_pauli(c) for c in v]) for k, v in so])
+            exp = Res("ok", (coq_subcircuits(impl[1]), impl[2], cso))
+        else:
+            exp = Res(impl[0])
+        ls = lab_ids(lab, labels)
+        cobs = Opt([coq_pauli(c) for c in obs]) if obs is not None else Opt()
+        w.add("preplaced", "chk_problem",
+              (coq_tables(tables), n, qc.num_clbits, len(qc.cregs), coq_circ(cin),
+               Opt(coq_labels(ls)) if ls is not None else Opt(), cobs, exp),
+              json_case("problem", desc, cin, labels=None if labels is None else [tagged(l) for l in labels], obs=obs, impl=impl,
+                        calls=calls, **hist),
+              nontrivial=(impl[0] == "ok" and len(impl[2]) > 0))
+        w.count("preplaced.outcome", impl[0])
+        w.count("preplaced.labels", "auto" if auto else "explicit")
+        w.count("preplaced.calls", calls)
+        nobj = len({x[5] for x in desc["items"] if x[0] == "qpd2" and len(x) > 5})
+        w.count("preplaced.same_instance_reused", shared and nobj < len(q2))
+        if impl[0] == "ok":
+            w.count("preplaced.ncuts", len(impl[2]))
+            w.count("preplaced.nsub", len(impl[1]))
+
     _W["w"] = None
     return w.finish(
         rule="random circuits on 1..6 qubits over several registers/loose bits: 1-/2-/3-qubit gates (registry, KAK-path and unsupported "
@@ -841,7 +916,9 @@ def generate(rng, tier, outdir):
         "lists (identity or not on dropped qubits); malformed streams (label/observable count mismatch, phases, clbits, spanning or "
         "None-labelled instructions, zero-qubit barrier, out-of-range gate ids). Streams: _split_barriers, _combine_barriers (arbitrary "
         "uuid arrangements), _partition_labels_from_circuit, _qubit_map_from_partition_labels, separate_circuit, "
-        "partition_circuit_qubits, cut_gates, partition_problem. distinct = distinct Coq case literal; non-trivial = successful call "
+        "partition_circuit_qubits, cut_gates, partition_problem, and partition_problem on circuits with nothing left to cut (all crossing "
+        "gates pre-placed, one gate instance possibly at several positions, input handed over once or twice; the caller's gate "
+        "labels are recorded before/after). distinct = distinct Coq case literal; non-trivial = successful call "
         "with >1 subcircuit / >0 cuts / a split or joined barrier")
 
 
@@ -1158,11 +1235,16 @@ def _judge_problem(case, n, problems):
             must_refuse = "a gate with unbound parameters has to be cut"
     if must_refuse:
         return dict(violates=False, detail=f"request cannot be partitioned ({must_refuse}); outcome {impl[0]}")
+    il = case.get("in_labels")
+    if il is not None and il[0] != il[1]:
+        problems.append(f"the call changed the labels of the caller's own gates: {il[0]} -> {il[1]}")
     idle_nonid = obs is not None and any(o[1][q] != 0 for o in obs for q in range(n) if lids[q] is None)
     if impl[0] != "ok":
-        if impl[0] == "refused" and idle_nonid:
+        if impl[0] == "refused" and idle_nonid and not problems:
             return dict(violates=False, detail="observable acts on a dropped (idle) qubit: refusing with ValueError is allowed")
-        return dict(violates=True, detail=f"valid request failed: {impl}")
+        if impl[0] == "refused" and idle_nonid:
+            return dict(violates=True, detail="; ".join(problems))
+        return dict(violates=True, detail="; ".join(problems + [f"valid request failed: {impl}"]))
     subs, bases, so = impl[1], impl[2], impl[3]
     # ---- expected circuit after cutting: spanning 2-qubit gates and pre-placed cut gates become two halves ----
     exp = []
@@ -1316,8 +1398,10 @@ def _rerun(case):
         case["impl"] = [r[0], r[1]]
     elif k == "problem":
         labels = None if case["labels"] is None else [untag(t) for t in case["labels"]]
-        qc, ctx, cin, tables, lab, impl = run_problem(desc, labels, case["obs"])
+        hist = {}
+        qc, ctx, cin, tables, lab, impl = run_problem(desc, labels, case["obs"], case.get("calls", 1), hist)
         case["circ"], case["impl"] = cin, impl
+        case.update(hist)
     else:
         raise ValueError(k)
     return case
